@@ -88,7 +88,7 @@ PROPS["C09"] = dict(
         "thorough": [dict(harness="VerifHarness_C09_thorough", reach=["clean-run", "stmt-fault", "write-fault", "two-write-faults"])],
     },
     bounds={
-        "quick": "1..2 files x 1..2 statements; two faulty ExecuteN runs then a clean one; in each faulty run the index of the failing store "
+        "quick": "1..2 files x 1..3 statements; two faulty ExecuteN runs then a clean one; in each faulty run the index of the failing store "
                  "operation (statement execution or revision write, or none) is a symbolic integer",
         "thorough": "1..3 files x 1..3 statements; two faulty runs (symbolic failing operation index each) then a clean run; unsat answers cross-checked",
     },
@@ -148,18 +148,22 @@ PROPS["C06"] = dict(
         "quick": [
             dict(harness="VerifHarness_C06_quick", reach=["validates", "rejected"]),
             dict(harness="VerifHarness_C06_ignore", reach=["validates", "rejected"]),
+            dict(harness="VerifHarness_C06_shift", reach=["validates", "rejected"]),
             dict(harness="VerifHarness_C06_ignore_witness", role="witness", key="C06-ignored-files"),
         ],
         "thorough": [
             dict(harness="VerifHarness_C06_thorough", reach=["validates", "rejected"]),
             dict(harness="VerifHarness_C06_ignore3", reach=["validates", "rejected"]),
+            dict(harness="VerifHarness_C06_shift", reach=["validates", "rejected"]),
             dict(harness="VerifHarness_C06_ignore_witness", role="witness", key="C06-ignored-files"),
         ],
     },
     bounds={
         "quick": "original directory D: 0..3 files named b/d/f.sql with 4 fully symbolic content bytes each; validated directory D': 0..3 files with "
                  "symbolic one-letter names (sorted, distinct) and 4 symbolic content bytes each; sum-ignore family: 0..2 files, each optionally "
-                 "starting with the concrete '-- atlas:sum ignore' line followed by 1 symbolic byte",
+                 "starting with the concrete '-- atlas:sum ignore' line followed by 1 symbolic byte; boundary-shift family: 3 files in both "
+                 "directories, the first two with symbolic contents of length 0, 1, 5 or 6 chosen independently (so a content can spell a file name "
+                 "and the name/content boundaries of the hashed byte stream can move), the third of 1 byte",
         "thorough": "0..4 files x 6 symbolic content bytes (the longest content that cannot itself spell an atlas: directive); sum-ignore family "
                     "0..3 files x 2 bytes; unsat answers cross-checked",
     },
@@ -303,7 +307,7 @@ PROPS["C02"] = dict(
         "quick": "per dialect (SQLite, MySQL 8.0.31, PostgreSQL differs, normalized mode as the CLI uses): a table template with column a "
                  "(present/absent per side; type family int/text/real; NULL-ability symbolic; default none or quoted one-letter literal with symbolic letter; "
                  "MySQL/PostgreSQL: comment none or symbolic letter), index (present/absent; unique and descending symbolic), primary key, foreign key "
-                 "(present/absent; ON DELETE in {unset, NO ACTION, CASCADE}), named check (present/absent; symbolic one-letter expression), SQLite STRICT; "
+                 "(present/absent; composite (b,c)->(id,id2) with child or parent columns optionally swapped; ON DELETE in {unset, NO ACTION, CASCADE}), named check (present/absent; symbolic one-letter expression), SQLite STRICT; "
                  "groups: column / index+pk / fk+check+option with the rest fixed, plus every present/absent combination of all elements x declaration order",
         "thorough": "same plus the 2^8 skip-policy subsets (see C19)",
     },
